@@ -30,7 +30,7 @@ RULE = ("WRITE: an instrumented statement generator logs PULL(i) before yielding
         "grouped parsers of both integrations must have yielded every event of frames 1..j before the stall surfaces. "
         "Non-trivial: >= 3 frames and a stop/stall strictly inside the stream; distinct by (kind, configuration, k or j).")
 ASSUMPTIONS = [
-    "frame_size is the value the caller passed in SerializerOptions, or (a quarter of the cases) to the flow instance handed over in SerializerOptions.flow",
+    "frame_size is the value the caller passed in SerializerOptions, or (a quarter of the cases) to the flow instance handed over in SerializerOptions.flow - a built-in flow class, a user subclass of BoundedFrameFlow, or a user subclass of FrameFlow whose frame_from_bounds() cuts at that many rows",
     "leading empty frames are not counted as 'frame 1' on the parse side: finding the first non-empty frame (options) is by design a read-ahead that withholds no statement",
     "no wall-clock verdicts: the socket source raises Stalled only when the writer has declared itself idle and select() reports nothing readable",
 ]
@@ -69,11 +69,28 @@ def frames_iter(integ: str, cfg: dict, stmts_iter, entry: str):
     if cfg.get("flow_instance"):
         # the frame size is given by handing over a flow INSTANCE; options.frame_size keeps its default of 250
         from pyjelly.serialize import flows as F
-        cls = getattr(F, cfg["flow_instance"])
-        kw = {"frame_size": cfg["frame_size"]}
-        if cfg["flow_instance"] == "BoundedFrameFlow":
-            kw["logical_type"] = pj.FLAT_LOGICAL[cfg["physical"]]
-        options = pj.make_options(dict(cfg, frame_size=250), flow=cls(**kw))
+        if cfg["flow_instance"] in ("user:FrameFlow-subclass", "user:BoundedFrameFlow-subclass"):
+            # the documented extension point: the caller's OWN flow class decides when a frame is full
+            if cfg["flow_instance"] == "user:FrameFlow-subclass":
+                class UserSizedFlow(F.FrameFlow):
+                    def __init__(self, *a, n=1, **k):
+                        super().__init__(*a, **k)
+                        self.n = n
+
+                    def frame_from_bounds(self):
+                        return self.to_stream_frame() if len(self) >= self.n else None
+                flow = UserSizedFlow(n=cfg["frame_size"], logical_type=pj.FLAT_LOGICAL[cfg["physical"]])
+            else:
+                class UserBounded(F.BoundedFrameFlow):
+                    pass
+                flow = UserBounded(frame_size=cfg["frame_size"], logical_type=pj.FLAT_LOGICAL[cfg["physical"]])
+            options = pj.make_options(dict(cfg, frame_size=250), flow=flow)
+        else:
+            cls = getattr(F, cfg["flow_instance"])
+            kw = {"frame_size": cfg["frame_size"]}
+            if cfg["flow_instance"] == "BoundedFrameFlow":
+                kw["logical_type"] = pj.FLAT_LOGICAL[cfg["physical"]]
+            options = pj.make_options(dict(cfg, frame_size=250), flow=cls(**kw))
     else:
         options = pj.make_options(cfg)
     mod = gser if integ == "generic" else rser
@@ -314,7 +331,9 @@ def write_case(ctx, rng):
         cfg["iterator_kind"] = rng.choice(["map", "iter-callable", "iterator-class"])
         ctx.observe(f"write:input-iterator:{cfg['iterator_kind']}")
     if rng.random() < .25:
-        cfg["flow_instance"] = rng.choice(["FlatTriplesFrameFlow" if phys == 1 else "FlatQuadsFrameFlow", "BoundedFrameFlow"])
+        cfg["flow_instance"] = rng.choice(["FlatTriplesFrameFlow" if phys == 1 else "FlatQuadsFrameFlow", "BoundedFrameFlow",
+                                           "user:FrameFlow-subclass", "user:BoundedFrameFlow-subclass"])
+        ctx.observe(f"write:flow-instance:{cfg['flow_instance']}")
         cfg["logical"] = pj.FLAT_LOGICAL[phys]
         logical = cfg["logical"]
         ctx.observe("write:frame-size-through-flow-instance")
